@@ -38,6 +38,11 @@ CHECKS = {
    text="All 45 pure builtins are called directly with arguments of their declared type drawn from boundary pools (magnitudes around 2^31/2^32/2^63/2^64, 16 MiB limits, unaligned bit windows) with binaries built in random rope shapes of equal content; results are compared with three-zone reference models (must-value / must-error / either), every rope-shaped case is repeated with flat arguments, panics are caught per call and aborts/OOM are attributed through child processes; run in the overflow-checked and the release profile.",
    design="§3 C12",
    note="Models follow the builtins' doc comments; where they are silent the model accepts an error or the listed value(s). Slow cases are inconclusive (hang verdicts would need the scaling test of DESIGN §2.8). sin/cos are checked for totality only."),
+ "C20": dict(
+   technique="runtime monitoring: differential oracle (exact arithmetic in Q(sqrt n) over BigInt) + model-free canonical-form monitor over generated %num programs",
+   text="Batches of %num operations on nil / small / huge (beyond 64 bit) / negative integers, canonical rationals (also written as unreduced fraction literals) and single-radical surds are compiled and run; each result must equal the exact result in the module's canonical representation (ints stay ints, rational paths never lower, surd paths collapse, div always rational), be nil exactly for nil operands, division by zero and mixed radicals, never be a runtime error, and pass a structural canonicity check (gcd 1, positive denominator, b != 0, square-free radical).",
+   design="§3 C20",
+   note="min/max/clamp with incomparable radicals are not judged; sqrt only on small radicands (documented O(sqrt n))."),
 }
 
 NOT_BUILT = "check not built yet in this round (work in progress; see DESIGN.md §6 build order)"
